@@ -147,7 +147,7 @@ h_frame_iterator_next(void)
 }
 
 /* chain-walking loop of vfslice_split_at_delay_ms: bounded stand-in, K frames */
-#define K 3
+#define K 2
 void
 h_vfslice_split(void)
 {
@@ -177,10 +177,10 @@ h_vfslice_split(void)
     struct vfslice r = vfslice_split_at_delay_ms(&sl, delay_ms);
     size_t cut = (size_t)((const uint8_t*)r.beg - buf);
     VASSERT(r.end == sl.end, "[C05.split-keeps-end] the remainder ends where the slice ends");
-    VASSERT(cut == off[0] || cut == off[1] || cut == off[2] || cut == total,
+    VASSERT(cut == off[0] || cut == off[1] || cut == total,
             "[C05.split-at-frame-boundary,C04.split-at-frame-boundary] the consumed part is a whole number of frames");
     VASSERT(cut <= total, "[C05.split-inside-slice] the cut lies inside the slice");
-    VCOVER(nframes == K && cut == off[1], "cut after the first frame of a 3-frame packet");
+    VCOVER(nframes == K && cut == off[1], "cut after the first frame of a 2-frame packet");
     VCOVER(nframes == 0, "empty slice");
     H_END;
 }
